@@ -244,14 +244,15 @@ func (f *flow) conforms(k, level, pageStart int, strict bool) bool {
 
 // pageVerdict is the outcome of checking one page's end.
 type pageVerdict struct {
-	sig, msg string // non-empty sig = violation
-	kind     string // end | forced | unforced
-	level    int    // rule-dropping level of an unforced boundary
-	hi, e    int
-	exactFit bool // the units placed fill the page exactly
-	moved    bool // constraints moved the break before the last fitting unit
-	looseOK  bool // accepted only under the box-based reading of orphans
-	kfInsideAvoid bool
+	sig, msg       string // non-empty sig = violation
+	kind           string // end | forced | unforced
+	level          int    // rule-dropping level of an unforced boundary
+	hi, e          int
+	exactFit       bool // the units placed fill the page exactly
+	moved          bool // constraints moved the break before the last fitting unit
+	looseOK        bool // accepted only under the box-based reading of orphans
+	kfInsideAvoid  bool
+	firstOverflows bool // the first unit of the page is higher than the page
 }
 
 // fits decides whether content of total height sum fits a page of content height H.  When every
@@ -290,6 +291,9 @@ func (f *flow) checkPageEnd(s, b int, H float64) pageVerdict {
 		} else {
 			break
 		}
+	}
+	if fit, sure := f.fits(f.units[s].h, H); !fit && sure {
+		v.firstOverflows = true
 	}
 	kf := -1
 	for k := s; k < n-1; k++ {
